@@ -36,7 +36,7 @@ func probeModule(dir, level string) {
 	}
 	b.WriteString("func main() { println(\"probe\") }\n")
 	files := map[string]string{
-		"go.mod":  "module verifprobe\n\ngo 1.26\n",
+		"go.mod":  "module zqsimple/verifprobe\n\ngo 1.26\n",
 		"main.go": b.String(),
 	}
 	if level == LevelTest {
